@@ -33,18 +33,31 @@ class FifoHarness(Harness):
             dut = ff.LiteDRAMFIFO(dw, base * nbytes, depth * nbytes, wp, rp, with_bypass=bypass, pre_fifo_depth=pre, post_fifo_depth=post)
             self.addr_lo, self.addr_hi = base, base + depth
         self.dut = dut
+        self.pc_regs = None
+        if kind != "core" and bypass and port_dw != dw:
+            # pre-converter occupancy registers (anonymous sub-module of stream.Converter), located structurally before finalization:
+            # first sync statement clears `strobe_all`, the second assigns {demux, strobe_all}
+            from migen.fhdl.tools import list_targets
+            conv = dut.pre_converter._submodules[0][1]
+            st = conv._fragment.sync["sys"]
+            strobe_all = list(list_targets([st[0]]))[0]
+            demux = [x for x in list_targets([st[1]]) if x is not strobe_all][0]
+            self.pc_regs = (demux, strobe_all)
         dut.finalize()                      # FSM state registers exist only after finalization
         reads = Responder.reads([wp, rp]) + [dut.sink.ready, dut.source.valid, dut.source.data]
         self.fsm_state = None
         if kind != "core" and bypass:
             reads.append(dut.fsm.state)
-            self.pump_code = dut.fsm.encoding["PUMP_PRECONVERTER"]
+            self.pump_code = dut.fsm.encoding["PUMP_PRECONVERTER"]; self.dram_code = dut.fsm.encoding["DRAM"]
+            if self.pc_regs: reads += list(self.pc_regs)
         self.c = c = fhdl.compile_harness(dut, reads)
         self.resp = Responder(c, [wp, rp], wmin=wmin, rmin=rmin, qmax=qmax, addr_ok=lambda p, a: self.addr_lo <= a < self.addr_hi)
         ii = c.ii
         self.i_valid = ii[dut.sink.valid]; self.i_data = ii[dut.sink.data]; self.i_ready = ii[dut.source.ready]
         self.r_sready = c.rd(dut.sink.ready); self.r_valid = c.rd(dut.source.valid); self.r_data = c.rd(dut.source.data)
         self.r_fsm = c.rd(dut.fsm.state) if (kind != "core" and bypass) else None
+        self.r_pc = [c.rd(x) for x in self.pc_regs] if self.pc_regs else None
+        self.g_fsm = c.getter(dut.fsm.state) if (kind != "core" and bypass) else None
         self.base = list(c.base_inputs)
         self.cov = {}
 
@@ -142,7 +155,7 @@ class FifoHarness(Harness):
                 # an all-zero word is never sent by the producer: it is an inserted word, the expected sequence does not advance
                 kind = "inserted_zero_word" if d == 0 else "other"
                 self.report("fifo.stream_mismatch", "output word %x, expected word #%d = %x (lost, duplicated, inserted or re-ordered)" % (d, exp, self.word(exp)),
-                            kind=kind, after_partial_word_padding=bool(pumped))
+                            kind=kind, left_dram_mode_with_data_in_preconverter=bool(pumped))
                 if kind != "inserted_zero_word": exp = (exp + 1) % self.M
             else:
                 exp = (exp + 1) % self.M
@@ -152,7 +165,10 @@ class FifoHarness(Harness):
         coop = cr == 1 and rch == self.default_resp(rs)
         if coop and (seq != exp): ev |= EV_OUT
         if prog: ev |= EV_PROG
-        if self.r_fsm is not None and self.r_fsm(S, I, O) == self.pump_code: pumped = 1
+        # history flag of the recorded finding: the bypass FSM leaves DRAM mode while the pre-converter still holds data (a partial or a
+        # complete DRAM word): its bookkeeping (dram_cnt / *_mod counters) does not see that data
+        if self.r_pc is not None and self.r_fsm(S, I, O) == self.dram_code and self.g_fsm(S2) != self.dram_code:
+            if self.r_pc[0](S, I, O) != 0 or self.r_pc[1](S, I, O) != 0: pumped = 1
         return (hold2, seq, sent, exp, tuple(sorted(live)), dev, rs2, pm, cm, pumped), ev
 
     def coverage(self): return dict(self.cov)
